@@ -176,6 +176,9 @@ class ExprMixin:
             data = True
         if base.locs:
             data = True
+        if name in ("dtype", "shape", "size", "ndim", "flags"):
+            from .interp_call import strip_obs
+            base = base.with_(deps=strip_obs(base.deps))
         if not base.refs and not base.locs:
             # attribute of a non-aliasing value (numpy scalar/array result): .size .shape .T .flags ...
             return Val(deps=base.deps, tags=base.tags | {"attr:" + name}, callee=[("extmeth", base, name, "val")])
@@ -396,10 +399,12 @@ class ExprMixin:
             it = self.eval(gen.iter)
             if first:
                 ev.a["iter"] = it
+                self.loop_iters[lid] = it
             first = False
             self.out = ev.a["body"]
             iters.append((gen, it))
-            deps |= it.deps
+            from .interp_call import strip_obs
+            deps |= strip_obs(it.deps)     # the iterable fixes the length; element data flows through the elt
             self.loops = self.loops + ((lid, 1),)
             self.bind_loop_target(gen.target, it, gen.iter)
             for cond in gen.ifs:
